@@ -57,7 +57,7 @@ PathOf(st) == [i \in 1..Len(st) |-> <<st[i].target, IF st[i].ctx.idx[st[i].targe
 
 (* ---- alphabet ------------------------------------------------------------------------------------ *)
 Op(op, t, kind, v) == [op |-> op, t |-> t, kind |-> kind, v |-> v]
-PrimVals == [bool |-> {0, 1}, nbits |-> {0, 2}, uint |-> {0, 3}, sint |-> {-1, 2}]
+PrimVals == [bool |-> {1}, nbits |-> {2}, uint |-> {0, 3}, sint |-> {-1}]
 PrimOps == {Op("prim", t, kd, v) : t \in {"a", "l"}, kd \in {"bool", "nbits", "uint", "sint"}, v \in {0, 1, 2, 3, -1}}
 Ops ==      {o \in PrimOps : o.v \in PrimVals[o.kind]}
        \cup {Op("declare_list", t, "", 0) : t \in {"l", "m"}}
@@ -136,7 +136,7 @@ FaultKinds == {"none", "extra", "missing", "listlong", "listshort", "default", "
 (* sites a fault may be planted at: an index into `uses` (0 = the root context itself, for "extra") *)
 Eligible(fk, i) ==
   CASE fk = "none"  -> i = 0
-    [] fk = "extra" -> i = 0 \/ uses[i].kind = "sub"                     \* an unused key in the root / in that subcontext
+    [] fk = "extra" -> (IF i = 0 THEN TRUE ELSE uses[i].kind = "sub")                    \* an unused key in the root / in that subcontext
     [] fk \in {"missing", "default", "defaultwrongtype"} -> i > 0 /\ uses[i].kind \in {"prim", "pad"} /\ ~uses[i].islist
     [] fk = "listlong"  -> i > 0 /\ uses[i].kind = "list"
     [] fk = "listshort" -> i > 0 /\ uses[i].kind = "prim" /\ uses[i].islist
@@ -145,7 +145,7 @@ Eligible(fk, i) ==
 MustFail(fk) == fk \in {"extra", "missing", "listlong", "listshort", "defaultwrongtype"}
 
 Init == /\ cur = EmptyCtx /\ stack = <<>> /\ w = W0 /\ r = R0
-        /\ out = [err |-> "none"] /\ uses = <<>>
+        /\ out = [err |-> "none", rt |-> TRUE] /\ uses = <<>>
         /\ pre = <<>> /\ inp = Op("init", "", "", 0) /\ hist = <<>>
         /\ obs = [tree |-> CtxV(EmptyCtx), bits |-> <<>>]
 
